@@ -71,7 +71,7 @@ def jobs(tier, seed, report):
     allq = ps + facts
     report.bounds = {'magnitudes': 'unbounded symbolic rationals', 'units': f'{len(ps)} literal units (14-unit basis, prefixed / powered / quotient variants, the plain number) + {len(facts)} distinct units of the {nconst} shipped constants',
                      'triples': ('seeded sample: 260 triples for the multiplicative laws plus 48 of the 128 directed partial-reconstruction triples (btu, hour at powers 1, 2, -1 and kg/D), 200 same-dimension triples for the additive and distributive laws' if tier == 'quick' else 'all same-dimension triples; 3000 seeded triples for the multiplicative laws plus all 128 directed partial-reconstruction triples')}
-    report.outside = ['sums and differences that involve an offset temperature scale (conversions of those scales: C09; in products they are covered, read as intervals)', 'that a fact phrase finds its constant (C16, not applicable)', 'quantities with more than the units listed']
+    report.outside = ['associativity / distributivity of sums that involve an offset temperature scale (commutativity is checked under either reading of the degree; conversions of those scales: C09; in products they are covered, read as intervals)', 'that a fact phrase finds its constant (C16, not applicable)', 'quantities with more than the units listed']
     report.assumptions = ['BigRational exact (SMT Real, nonlinear)', 'declared unit scales (checked against the standards in C05)', 'a looked-up fact is a quantity with one of the shipped units and an arbitrary value']
     report.models_used = ['num', 'coll', 'core']
     report.required_witnesses = ['add-commutes', 'mul-commutes', 'add-associates', 'mul-associates', 'distributes', 'self-difference-zero', 'self-quotient-one', 'fact-unit-in-law', 'incompatible-refused-both-ways']
@@ -91,6 +91,9 @@ def jobs(tier, seed, report):
     rnd.shuffle(offm)
     if tier == 'quick': offm = offm[:40]
     for i in range(0, len(offm), 4): js.append({'name': f'offsetmult-{i}', 'kind': 'offsetmult', 'triples': offm[i:i + 4]})
+    K_ = ul.resolve(I, 'Kelvin')
+    oa = [([(OFF[0], 1, 0)], [(K_, 1, 0)]), ([(OFF[1], 1, 0)], [(K_, 1, 0)]), ([(OFF[0], 1, 0)], [(OFF[1], 1, 0)]), ([(OFF[0], 1, 0)], [(OFF[0], 1, 0)]), ([(OFF[1], 1, 0)], [(OFF[1], 1, 0)]), ([(OFF[0], 1, 0)], [(K_, 1, 3)])]
+    js.append({'name': 'offsetadd-0', 'kind': 'offsetadd', 'pairs': oa})
     part = partial_families(I); rnd.shuffle(part)
     mult = (part[:48] if tier == 'quick' else part) + mult
     mixed = [tuple(rnd.choice(allq) for _ in range(2)) for _ in range(60)]
@@ -118,11 +121,19 @@ def si(I, q):
     sc = lambda u: U.scale_of(u) if U.is_offset(u) else ul.declared_scale(I, u)[1]
     return mnum.rmul(q[0], ul.F_of(I, q[1], sc)), U.dims_of_compound(q[1])
 
+def si_absolute(I, q):
+    """SI value with the zero point added where the unit is a lone zero-point scale of power one (else as si)"""
+    v, ents = q
+    if len(ents) == 1 and U.is_offset(ents[0][0]) and ents[0][1] == 1:
+        u, _, f = ents[0]
+        return mnum.radd(mnum.rmul(v, U.scale_of(u) * Fraction(10) ** f), U.OFFSETS[U.key(u)])
+    return si(I, q)[0]
+
 def run_job(job, res, prefixes, budget, deadline):
     I = harness.interp_for('dev', {'pow_bound': 80})
     facts = {tuple(map(tuple, f)) for f in db_units(I)[0]}
     def is_fact(u): return tuple(map(tuple, u)) in facts
-    def law(name, units, lhs, rhs, witness, guard=None):
+    def law(name, units, lhs, rhs, witness, guard=None, either_reading=False):
         """lhs, rhs: callables (I, a, b, c) -> quantity; both executed on one path"""
         def entry(I):
             x, y, z = z3.Real('x'), z3.Real('y'), z3.Real('z')
@@ -165,7 +176,13 @@ def run_job(job, res, prefixes, budget, deadline):
                 P, _, zero = ratfun.difference(mnum.rz(v1), mnum.rz(v2)); neg = (P != 0) if not zero else False
             except ratfun.NotRational:
                 neg = znot(mnum.req(v1, v2))
-            st = res.obligation(I, neg, f'{name}: equal SI value', lambda m: cand('si-values-differ', f'{name}: {rt.mval(m, mnum.rz(v1))} vs {rt.mval(m, mnum.rz(v2))} (units {q1[1]} / {q2[1]})', m))
+            role = 'si-values-differ'
+            if either_reading:
+                # a sum with a zero-point scale: equal under the interval reading (size of the degree only) OR under the
+                # absolute reading (zero point added) -- a violation only if it fails under both
+                a1, a2 = si_absolute(I, q1), si_absolute(I, q2)
+                neg = zand(neg, znot(mnum.req(a1, a2))); role = 'offset-sum-not-commutative'
+            st = res.obligation(I, neg, f'{name}: equal SI value', lambda m: cand(role, f'{name}: {rt.mval(m, mnum.rz(v1))} vs {rt.mval(m, mnum.rz(v2))} (units {q1[1]} / {q2[1]})', m))
             if st == 'unsat':
                 res.witness(witness)
                 if any(is_fact(u) for u in units): res.witness('fact-unit-in-law')
@@ -193,6 +210,9 @@ def run_job(job, res, prefixes, budget, deadline):
             law('a*b = b*a', t, lambda I, a, b, c: op(I, 'mul', a, b), lambda I, a, b, c: op(I, 'mul', b, a), 'mul-commutes')
             law('(a*b)*c = a*(b*c)', t, lambda I, a, b, c: op(I, 'mul', op(I, 'mul', a, b), c), lambda I, a, b, c: op(I, 'mul', a, op(I, 'mul', b, c)), 'mul-associates')
             law('(a/b)*c = a/(b/c)', t, lambda I, a, b, c: op(I, 'mul', op(I, 'div', a, b), c), lambda I, a, b, c: op(I, 'div', a, op(I, 'div', b, c)), 'mul-associates', guard=lambda x, y, z: z3.And(y != 0, z != 0))
+    elif k == 'offsetadd':
+        for p in job['pairs']:
+            law('a+b = b+a (either reading of the degree)', p, lambda I, a, b, c: op(I, 'add', a, b), lambda I, a, b, c: op(I, 'add', b, a), 'add-commutes', either_reading=True)
     elif k == 'mixed':
         for p in job['pairs']:
             law('a+b = b+a', p, lambda I, a, b, c: op(I, 'add', a, b), lambda I, a, b, c: op(I, 'add', b, a), 'add-commutes')
@@ -231,7 +251,7 @@ def confirm(c, outs):
         a, b, c_ = Q
         law = case['law']
         try:
-            if law == 'a+b = b+a': l, r = ev('add', a, b), ev('add', b, a)
+            if law.startswith('a+b = b+a'): l, r = ev('add', a, b), ev('add', b, a)
             elif law == 'a-b = -(b-a)': l, r = ev('sub', a, b), ev('sub', ZERO, ev('sub', b, a))
             elif law == '(a+b)+c = a+(b+c)': l, r = ev('add', ev('add', a, b), c_), ev('add', a, ev('add', b, c_))
             elif law == '(a-b)+c = a-(b-c)': l, r = ev('add', ev('sub', a, b), c_), ev('sub', a, ev('sub', b, c_))
@@ -250,6 +270,12 @@ def confirm(c, outs):
         le, re_ = unit_entries(l['unit']), unit_entries(r['unit'])
         lv = rt.parse_frac(l['value']) * ul.decl_si_factor(le); rv = rt.parse_frac(r['value']) * ul.decl_si_factor(re_)
         if U.dims_of_compound(le) != U.dims_of_compound(re_): return True, f'{prof}: {law}: dimensions {U.dims_of_compound(le)} vs {U.dims_of_compound(re_)}'
+        if lv != rv and 'either reading' in law:
+            def absolute(v, ents):
+                if len(ents) == 1 and U.is_offset(ents[0][0]) and ents[0][1] == 1: return v + U.OFFSETS[U.key(ents[0][0])]
+                return v
+            if absolute(lv, le) == absolute(rv, re_): continue
+            return True, f'{prof}: {law}: {l["value"]} {ul.names_list(le)} vs {r["value"]} {ul.names_list(re_)} -- SI {lv} vs {rv} as intervals, {absolute(lv, le)} vs {absolute(rv, re_)} as temperatures'
         if lv != rv: return True, f'{prof}: {law}: SI values {lv} vs {rv}'
     return False, 'real build satisfies the law on this input'
 
